@@ -947,6 +947,30 @@ func main() {
 		}
 		rows = append(rows, fmt.Sprintf("(\"%s\", %v, %v, %v)", strings.ToLower(L), pan("ExpiresAt"), pan("RefreshableAt"), pan("Next")))
 	}
+	// the cache's own "does a read of n start a reload" predicate (cache_impl.go: isStale)
+	{
+		fd := findFunc(ot, "cache.isStale")
+		if fd == nil {
+			fail("method cache.isStale not found")
+		}
+		if len(fd.Body.List) != 1 {
+			fail("cache.isStale: expected single return")
+		}
+		rs, ok := fd.Body.List[0].(*ast.ReturnStmt)
+		if !ok || len(rs.Results) != 1 {
+			fail("cache.isStale: expected single return")
+		}
+		t := &tr{p: ot, locals: map[string]bool{"nowNano": true}, calls: map[string]string{}, freeTy: map[string]ty{}, siteMod: true}
+		body, _ := t.expr(rs.Results[0])
+		for _, fv := range t.free {
+			switch fv {
+			case "c_withRefresh", "n_RefreshableAt", "n_IsAlive":
+			default:
+				fail("cache.isStale: unexpected operand %s", fv)
+			}
+		}
+		s += fmt.Sprintf("/-- cache.isStale -/\ndef isStale (c_withRefresh : Bool) (n_RefreshableAt : BitVec 64) (n_IsAlive : Bool) (nowNano : BitVec 64) : Bool :=\n  %s\n\n", body)
+	}
 	s += "/-- layout, ExpiresAt panics, RefreshableAt panics, Next panics -/\ndef panics : List (String × Bool × Bool × Bool) := [" + strings.Join(rows, ", ") + "]\n"
 	s += footer("NodePred")
 	write(out, "NodePred", s)
